@@ -7,5 +7,6 @@ def main (args : List String) : IO UInt32 := do
   | ["c06"] => ZeepVerif.Driver.C06.main; return 0
   | ["model", dump, start, out] => ZeepVerif.Driver.Gen.main dump start out
   | ["modelbatch"] => ZeepVerif.Driver.Gen.batch
+  | ["shapes", dump] => ZeepVerif.Driver.Gen.shapes dump
   | ["http"] => ZeepVerif.Driver.HttpDrv.main; return 0
   | _ => IO.eprintln "usage: zvdrv c06 < lines"; return 2
